@@ -1,7 +1,8 @@
 (** Proofs about [MemDisk]: memory stays coherent with the database along
     every history outside the trigger pattern K; rolled-back address issuance
     never advances an index; the next committed issuance equals what a
-    restarted manager issues outside K_idx; witnesses inside K. *)
+    restarted manager issues outside K_idx; witnesses inside K.  Everything is
+    proved for both values of the model parameter [rb] (see MemDisk.v). *)
 From stdpp Require Import gmap list numbers.
 From Coq Require Import ZArith NArith Lia.
 From Verif Require Import Addr.MemDisk.
@@ -234,11 +235,14 @@ Qed.
 (** ** Rolled-back transactions outside K leave memory coherent with the
     committed database *)
 
-Definition AIK (d0 d : disk) (m : mem) (armed : bool) : Prop :=
-  coherent m d0 /\ d_addrs d = d_addrs d0 /\ (armed = false -> d_accts d = d_accts d0).
+Definition AIK (d0 d : disk) (m : mem) (armed issued : bool) : Prop :=
+  coherent m d0 /\ (issued = false -> d_addrs d = d_addrs d0) /\
+  (armed = false -> forall a, m_accts m !! a = None -> d_accts d !! a = d_accts d0 !! a).
 
 Definition arm (o : op) (armed : bool) : bool :=
   match o with ONewAccount _ => true | _ => armed end.
+Definition iss (o : op) (issued : bool) : bool :=
+  match o with ONext _ _ _ => true | _ => issued end.
 
 Lemma set_synced_accts s t t' r :
   set_synced s t = (t', r) ->
@@ -253,56 +257,148 @@ Lemma read_nonloading q d m :
   loads_cache (ORead q) = false -> (read q d m).1 = m.
 Proof. destruct q; simpl; try discriminate; reflexivity. Qed.
 
-Lemma abort_k_step d0 o ops t t' r armed :
-  abort_k armed (o :: ops) = false ->
-  step o t = (t', r) ->
-  AIK d0 (t_disk t) (t_mem t) armed ->
-  AIK d0 (t_disk t') (t_mem t') (arm o armed) /\ abort_k (arm o armed) ops = false.
+Lemma read_addrs_same q d m :
+  (forall x, q <> QLookup x) -> m_addrs (read q d m).1 = m_addrs m.
 Proof.
-  intros HK HS (HC & HA & HD).
-  destruct o; simpl in HK; try discriminate.
+  intros Hq. destruct q as [x|a b|a|nm|a| | |h| | ]; simpl; try reflexivity.
+  - exfalso. eapply Hq. reflexivity.
+  - destruct (load_acct d m a) as [m1 o] eqn:EL. apply load_acct_ext in EL as (_ & HA & _).
+    destruct o; exact HA.
+  - destruct (a =? imported_acct)%N; [reflexivity|].
+    destruct (load_acct d m a) as [m1 o] eqn:EL. apply load_acct_ext in EL as (_ & HA & _).
+    destruct o; exact HA.
+Qed.
+
+Lemma mem_ext_uncached d m m' a :
+  mem_ext d m m' -> m_accts m' !! a = None -> m_accts m !! a = None.
+Proof.
+  intros (E1 & _) H. destruct (m_accts m !! a) as [ai|] eqn:E; [|reflexivity].
+  apply E1 in E. congruence.
+Qed.
+
+(** Cache extension from rows that, for uncached accounts, are the committed
+    ones; the address cache does not grow. *)
+Lemma AIK_ext_accts d0 d m m' issued :
+  AIK d0 d m false issued -> mem_ext d m m' -> m_addrs m' = m_addrs m ->
+  AIK d0 d m' false issued.
+Proof.
+  intros ((A & B & C & D & E) & H2 & H3) HE HA. specialize (H3 eq_refl).
+  split; [|split; [exact H2|]].
+  - repeat split.
+    + eapply coh_idx_ext; eauto. intros a Ha. rewrite (H3 a Ha). reflexivity.
+    + eapply coh_name_ext; eauto. intros a Ha. rewrite (H3 a Ha). reflexivity.
+    + unfold coh_addr. rewrite HA. exact C.
+    + eapply coh_sync_ext; eauto.
+    + eapply coh_sync_ext; eauto.
+    + eapply coh_bday_ext; eauto.
+  - intros _ a Ha. apply H3. eapply mem_ext_uncached; eauto.
+Qed.
+
+Lemma AIK_ext_full d0 d m m' :
+  AIK d0 d m false false -> mem_ext d m m' -> AIK d0 d m' false false.
+Proof.
+  intros ((A & B & C & D & E) & H2 & H3) HE. specialize (H3 eq_refl). specialize (H2 eq_refl).
+  split; [|split; [auto|]].
+  - repeat split.
+    + eapply coh_idx_ext; eauto. intros a Ha. rewrite (H3 a Ha). reflexivity.
+    + eapply coh_name_ext; eauto. intros a Ha. rewrite (H3 a Ha). reflexivity.
+    + eapply coh_addr_ext; eauto. rewrite H2. reflexivity.
+    + eapply coh_sync_ext; eauto.
+    + eapply coh_sync_ext; eauto.
+    + eapply coh_bday_ext; eauto.
+  - intros _ a Ha. apply H3. eapply mem_ext_uncached; eauto.
+Qed.
+
+Lemma AIK_cong d0 d m armed issued d' m' :
+  d_accts d' = d_accts d -> d_addrs d' = d_addrs d ->
+  m_accts m' = m_accts m -> m_addrs m' ⊆ m_addrs m ->
+  m_synced m' = m_synced m -> m_start m' = m_start m -> m_birthday m' = m_birthday m ->
+  AIK d0 d m armed issued -> AIK d0 d' m' armed issued.
+Proof.
+  intros E1 E2 E3 E4 E5 E6 E7 ((A & B & C & D & E) & H2 & H3).
+  unfold AIK, coherent, coh_idx, coh_name, coh_addr, coh_sync, coh_bday in *.
+  rewrite E1, E2, E3, E5, E6, E7. repeat split; auto; try apply D.
+  intros x Hx. apply C, E4, Hx.
+Qed.
+
+Lemma AIK_arm d0 d m armed issued : AIK d0 d m armed issued -> AIK d0 d m true issued.
+Proof. intros (A & B & _). split; [exact A|split; [exact B|discriminate]]. Qed.
+
+Lemma abort_k_step rb d0 o ops t t' r armed issued :
+  abort_k rb armed issued (o :: ops) = false ->
+  step rb o t = (t', r) ->
+  AIK d0 (t_disk t) (t_mem t) armed issued ->
+  AIK d0 (t_disk t') (t_mem t') (arm o armed) (iss o issued) /\
+  abort_k rb (arm o armed) (iss o issued) ops = false.
+Proof.
+  intros HK HS HI.
+  destruct o as [nm|a nm|a b n|a b last|x|s| |tm|s v|x bs|q]; simpl in HK; try discriminate.
   - (* new account *)
-    split; [|exact HK]. simpl in HS.
-    repeat case_match; simplify_eq; simpl; (split; [exact HC|split; [exact HA|discriminate]]).
+    split; [|exact HK]. simpl in HS. apply AIK_arm in HI.
+    repeat case_match; simplify_eq; simpl; try exact HI.
+    destruct HI as (A & B & _). split; [exact A|split; [exact B|discriminate]].
+  - (* next *)
+    apply orb_false_iff in HK as [HK HK2]. apply orb_false_iff in HK as [-> ->].
+    split; [|exact HK2]. simpl in HS.
+    destruct (load_acct (t_disk t) (t_mem t) a) as [m1 o] eqn:EL.
+    apply load_acct_ext in EL as (HE & HAd & Ho).
+    pose proof (AIK_ext_accts _ _ _ _ _ HI HE HAd) as HI1.
+    assert (HW : forall d', d_accts d' = d_accts (t_disk t) -> AIK d0 d' m1 false true).
+    { intros d' Hd. destruct HI1 as (A & _ & C). split; [exact A|split; [discriminate|]].
+      intros _ a' Ha'. rewrite Hd. apply C; auto. }
+    destruct o as [ai|]; [|injection HS as <- <-; apply HW; reflexivity].
+    destruct ((max_addrs <? n)%N || (max_addrs <? next_of ai b + n)%N); [injection HS as <- <-; apply HW; reflexivity|].
+    destruct (n =? 0)%N; [injection HS as <- <-; apply HW; reflexivity|].
+    unfold put_chain in HS.
+    destruct (d_accts (t_disk t) !! a) as [r0|] eqn:Er0; injection HS as <- <-; simpl.
+    + destruct HI1 as (A & _ & C). split; [exact A|split; [discriminate|]].
+      intros _ a' Ha'. simpl. assert (a' <> a) by congruence.
+      rewrite lookup_insert_ne by congruence. apply C; auto.
+    + apply HW. reflexivity.
   - (* mark used *)
     apply orb_false_iff in HK as [_ HK]. split; [|exact HK].
     simpl in HS. injection HS as <- <-. simpl.
-    split; [|auto].
-    destruct HC as (A & B & C & D & E). repeat split; auto.
-    + intros y Hy. apply C. simpl in Hy. set_solver.
-    + apply D.
-    + apply D.
+    eapply AIK_cong; [..|exact HI]; try reflexivity. simpl. set_solver.
   - (* birthday block *)
     apply orb_false_iff in HK as [_ HK]. split; [|exact HK].
-    simpl in HS. injection HS as <- <-. simpl. split; auto.
+    simpl in HS. injection HS as <- <-. simpl.
+    eapply AIK_cong; [..|exact HI]; reflexivity.
   - (* read *)
-    apply orb_false_iff in HK as [HL HK]. split; [|exact HK].
     simpl in HS. destruct (read q (t_disk t) (t_mem t)) as [m' x] eqn:ER. injection HS as <- <-. simpl.
-    split; [|auto].
-    destruct armed.
-    + simpl in HL. pose proof (read_nonloading q (t_disk t) (t_mem t) HL) as HN.
-      rewrite ER in HN. simpl in HN. subst. exact HC.
-    + specialize (HD eq_refl). apply read_ext in ER.
-      destruct HC as (A & B & C & D & E). repeat split.
-      * eapply coh_idx_ext; eauto. intros a _. rewrite HD. reflexivity.
-      * eapply coh_name_ext; eauto. intros a _. rewrite HD. reflexivity.
-      * eapply coh_addr_ext; eauto. rewrite HA. reflexivity.
-      * eapply coh_sync_ext; eauto.
-      * eapply coh_sync_ext; eauto.
-      * eapply coh_bday_ext; eauto.
+    destruct q as [y|a b|a|nm|a| | |h| | ]; simpl in HK.
+    + (* lookup: nothing issued, nothing created *)
+      apply orb_false_iff in HK as [HK HK2]. apply orb_false_iff in HK as [-> ->].
+      split; [|exact HK2]. eapply AIK_ext_full; [exact HI|]. eapply read_ext; exact ER.
+    + apply orb_false_iff in HK as [HL HK]. split; [|exact HK].
+      rewrite andb_true_r in HL. subst armed.
+      eapply AIK_ext_accts; [exact HI|eapply read_ext; exact ER|].
+      pose proof (read_addrs_same (QLast a b) (t_disk t) (t_mem t)) as HA. rewrite ER in HA.
+      apply HA. discriminate.
+    + apply orb_false_iff in HK as [HL HK]. split; [|exact HK].
+      rewrite andb_true_r in HL. subst armed.
+      eapply AIK_ext_accts; [exact HI|eapply read_ext; exact ER|].
+      pose proof (read_addrs_same (QProps a) (t_disk t) (t_mem t)) as HA. rewrite ER in HA.
+      apply HA. discriminate.
+    + apply orb_false_iff in HK as [_ HK]. split; [|exact HK]. simpl in ER. injection ER as <- <-. exact HI.
+    + apply orb_false_iff in HK as [_ HK]. split; [|exact HK]. simpl in ER. injection ER as <- <-. exact HI.
+    + apply orb_false_iff in HK as [_ HK]. split; [|exact HK]. simpl in ER. injection ER as <- <-. exact HI.
+    + apply orb_false_iff in HK as [_ HK]. split; [|exact HK]. simpl in ER. injection ER as <- <-. exact HI.
+    + apply orb_false_iff in HK as [_ HK]. split; [|exact HK]. simpl in ER. injection ER as <- <-. exact HI.
+    + apply orb_false_iff in HK as [_ HK]. split; [|exact HK]. simpl in ER. injection ER as <- <-. exact HI.
+    + apply orb_false_iff in HK as [_ HK]. split; [|exact HK]. simpl in ER. injection ER as <- <-. exact HI.
 Qed.
 
-Lemma abort_k_ops d0 ops : forall t t' outs armed,
-  abort_k armed ops = false ->
-  run_ops ops t = (t', outs) ->
-  AIK d0 (t_disk t) (t_mem t) armed ->
+Lemma abort_k_ops rb d0 ops : forall t t' outs armed issued,
+  abort_k rb armed issued ops = false ->
+  run_ops rb ops t = (t', outs) ->
+  AIK d0 (t_disk t) (t_mem t) armed issued ->
   coherent (t_mem t') d0.
 Proof.
-  induction ops as [|o ops IH]; simpl; intros t t' outs armed HK HR HI.
+  induction ops as [|o ops IH]; simpl; intros t t' outs armed issued HK HR HI.
   - injection HR as <- <-. apply HI.
-  - destruct (step o t) as [t1 x] eqn:ES.
-    destruct (run_ops ops t1) as [t2 xs] eqn:ER. injection HR as <- <-.
-    destruct (abort_k_step d0 o ops t t1 x armed HK ES HI) as [HI1 HK1].
+  - destruct (step rb o t) as [t1 x] eqn:ES.
+    destruct (run_ops rb ops t1) as [t2 xs] eqn:ER. injection HR as <- <-.
+    destruct (abort_k_step rb d0 o ops t t1 x armed issued HK ES HI) as [HI1 HK1].
     eapply IH; eauto.
 Qed.
 
@@ -439,9 +535,9 @@ Definition pend_of (o : op) (pend : list (N * bool)) : list (N * bool) :=
 Lemma pred_plus i n : (n <> 0)%N -> N.pred (i + n) = (i + n - 1)%N.
 Proof. lia. Qed.
 
-Lemma commit_idx_step o ops t t' r pend :
+Lemma commit_idx_step rb o ops t t' r pend :
   commit_k_idx pend (o :: ops) = false ->
-  step o t = (t', r) ->
+  step rb o t = (t', r) ->
   TI_idx (t_disk t) (t_mem t) (t_cbs t) pend ->
   TI_idx (t_disk t') (t_mem t') (t_cbs t') (pend_of o pend) /\
   commit_k_idx (pend_of o pend) ops = false.
@@ -498,6 +594,8 @@ Proof.
     destruct HT1 as (A & B & C).
     destruct (C a ai Ho) as (r0 & Hr0 & Hb0).
     unfold put_chain in HS. rewrite Hr0 in HS. injection HS as <- <-. simpl.
+    match goal with |- TI_idx ?d' _ ?cbs' ?pend' => assert (G : TI_idx d' m1 cbs' pend') end.
+    2:{ eapply TI_idx_cong; [..|exact G]; try reflexivity. destruct rb; reflexivity. }
     split; [|split].
     + intros a' Ha'. simpl in *. destruct (decide (a' = a)) as [->|Hne]; [apply A; eauto|].
       rewrite lookup_insert_ne in Ha' by congruence. apply A; exact Ha'.
@@ -616,6 +714,33 @@ Proof. destruct b; reflexivity. Qed.
 Lemma wrap32_small t : (0 <=? t)%Z && (t <? 4294967296)%Z = true -> wrap32 t = t.
 Proof. intros H. apply andb_true_iff in H as [H1 H2]. unfold wrap32. apply Z.mod_small. lia. Qed.
 
+Lemma TI_rest_put d m m' cbs a b xs r0 nx newcbs :
+  TI_rest d m cbs -> d_accts d !! a = Some r0 ->
+  (forall x, x ∈ xs -> exists j, x = Chain a b j) ->
+  (forall a' ai', m_accts m' !! a' = Some ai' ->
+     exists ai0, m_accts m !! a' = Some ai0 /\ ai_name ai' = ai_name ai0) ->
+  m_addrs m' ⊆ list_to_set xs ∪ m_addrs m ->
+  m_synced m' = m_synced m -> m_start m' = m_start m -> m_birthday m' = m_birthday m ->
+  Forall (fun c => forall x, x ∈ cb_addrs c -> x ∈ xs) newcbs ->
+  TI_rest (set_d_accts (<[a := row_set_next b nx r0]> (d_accts d))
+             (set_d_addrs (list_to_set xs ∪ d_addrs d) d)) m' (cbs ++ newcbs).
+Proof.
+  intros (A & B & C & D & [E1 E2] & F) Hr0 Hxs Hacc Hadd Hs1 Hs2 Hs3 Hnew.
+  unfold TI_rest, coh_sync, coh_bday. simpl. rewrite Hs1, Hs2, Hs3.
+  repeat split; auto.
+  - intros a' ai' r' Ha' Hr'. simpl in Hr'. destruct (Hacc a' ai' Ha') as (ai0 & Hai0 & ->).
+    destruct (decide (a' = a)) as [->|Hne].
+    + rewrite lookup_insert in Hr'. injection Hr' as <-. rewrite r_name_set_next. eapply A; eauto.
+    + rewrite lookup_insert_ne in Hr' by congruence. eapply A; eauto.
+  - intros y Hy. simpl. apply Hadd in Hy. apply elem_of_union in Hy as [Hy|Hy]; [set_solver|].
+    apply B in Hy. set_solver.
+  - apply Forall_app. split.
+    + eapply Forall_impl; [|exact C]. intros c Hc y Hy. simpl. specialize (Hc y Hy). set_solver.
+    + eapply Forall_impl; [|exact Hnew]. intros c Hc y Hy. simpl. apply elem_of_union. left.
+      apply elem_of_list_to_set. apply Hc, Hy.
+  - apply (wfA_put _ a b); eauto.
+Qed.
+
 Lemma set_synced_rest s t t' r :
   (0 <=? s_time s)%Z && (s_time s <? 4294967296)%Z = true ->
   set_synced s t = (t', r) ->
@@ -626,9 +751,9 @@ Proof.
   simpl. rewrite (wrap32_small _ Ht). destruct s; reflexivity.
 Qed.
 
-Lemma commit_rest_step o t t' r pend :
+Lemma commit_rest_step rb o t t' r pend :
   op_times_ok o = true -> is_synced_nil o = false ->
-  step o t = (t', r) ->
+  step rb o t = (t', r) ->
   TI_idx (t_disk t) (t_mem t) (t_cbs t) pend ->
   TI_rest (t_disk t) (t_mem t) (t_cbs t) ->
   TI_rest (t_disk t') (t_mem t') (t_cbs t').
@@ -672,16 +797,14 @@ Proof.
     destruct (n =? 0)%N; [injection HS as <- <-; exact HR1|].
     destruct HI1 as (IA & IB & IC). destruct (IC a ai Ho) as (r0 & Hr0 & _).
     unfold put_chain in HS. rewrite Hr0 in HS. injection HS as <- <-. simpl.
-    destruct HR1 as (A & B & C & D & E & F). repeat split; auto; try apply E.
-    + intros a' ai' r' Ha' Hr'. simpl in *. destruct (decide (a' = a)) as [->|Hne].
-      * rewrite lookup_insert in Hr'. injection Hr' as <-. rewrite r_name_set_next. eapply A; eauto.
-      * rewrite lookup_insert_ne in Hr' by congruence. eapply A; eauto.
-    + intros y Hy. simpl in *. apply elem_of_union in Hy as [Hy|Hy]; [set_solver|]. apply B in Hy. set_solver.
-    + apply Forall_app. split.
-      * eapply Forall_impl; [|exact C]. intros c Hc y Hy. simpl. specialize (Hc y Hy). set_solver.
-      * constructor; [|constructor]. simpl. intros y Hy. apply elem_of_union. left.
-        apply elem_of_list_to_set. exact Hy.
-    + apply (wfA_put _ a b); eauto. intros y Hy. eapply elem_of_chain_range; exact Hy.
+    eapply TI_rest_put; [exact HR1|exact Hr0|..].
+    + intros y Hy. eapply elem_of_chain_range; exact Hy.
+    + intros a' ai' Ha'. exists ai'. split; [|reflexivity]. destruct rb; exact Ha'.
+    + destruct rb; simpl; set_solver.
+    + destruct rb; reflexivity.
+    + destruct rb; reflexivity.
+    + destruct rb; reflexivity.
+    + constructor; [|constructor]. simpl. auto.
   - (* extend *)
     simpl in HS.
     destruct (load_acct (t_disk t) (t_mem t) a) as [m1 o] eqn:EL.
@@ -693,14 +816,18 @@ Proof.
     destruct (max_addrs <? last)%N; [injection HS as <- <-; exact HR1|].
     destruct HI1 as (IA & IB & IC). destruct (IC a ai Ho) as (r0 & Hr0 & _).
     unfold put_chain in HS. rewrite Hr0 in HS. injection HS as <- <-. simpl.
-    destruct HR1 as (A & B & C & D & E & F). repeat split; auto; try apply E.
-    + intros a' ai' r' Ha' Hr'. simpl in *. destruct (decide (a' = a)) as [->|Hne].
-      * rewrite lookup_insert in Ha'; rewrite lookup_insert in Hr'. simplify_eq.
-        rewrite r_name_set_next, ai_name_set_branch. eapply A; eauto.
-      * rewrite lookup_insert_ne in Ha' by congruence; rewrite lookup_insert_ne in Hr' by congruence. eapply A; eauto.
-    + intros y Hy. simpl in *. apply elem_of_union in Hy as [Hy|Hy]; [set_solver|]. apply B in Hy. set_solver.
-    + eapply Forall_impl; [|exact C]. intros c Hc y Hy. simpl. specialize (Hc y Hy). set_solver.
-    + apply (wfA_put _ a b); eauto. intros y Hy. eapply elem_of_chain_range; exact Hy.
+    rewrite <- (app_nil_r (t_cbs t)).
+    eapply TI_rest_put; [exact HR1|exact Hr0|..].
+    + intros y Hy. eapply elem_of_chain_range; exact Hy.
+    + intros a' ai' Ha'. simpl in Ha'. destruct (decide (a' = a)) as [->|Hne].
+      * rewrite lookup_insert in Ha'. injection Ha' as <-. exists ai. split; [exact Ho|].
+        apply ai_name_set_branch.
+      * rewrite lookup_insert_ne in Ha' by congruence. eauto.
+    + simpl. set_solver.
+    + reflexivity.
+    + reflexivity.
+    + reflexivity.
+    + constructor.
   - (* mark used *)
     simpl in HS. injection HS as <- <-. simpl.
     destruct HR as (A & B & C & D & E & F). repeat split; auto; try apply E.
@@ -756,11 +883,11 @@ Proof.
   simpl. apply IH. apply TI_rest_run_cb. exact H.
 Qed.
 
-Lemma commit_ops ops : forall t t' outs pend,
+Lemma commit_ops rb ops : forall t t' outs pend,
   commit_k_idx pend ops = false ->
   existsb is_synced_nil ops = false ->
   forallb op_times_ok ops = true ->
-  run_ops ops t = (t', outs) ->
+  run_ops rb ops t = (t', outs) ->
   TI_idx (t_disk t) (t_mem t) (t_cbs t) pend ->
   TI_rest (t_disk t) (t_mem t) (t_cbs t) ->
   exists pend', TI_idx (t_disk t') (t_mem t') (t_cbs t') pend' /\
@@ -768,26 +895,26 @@ Lemma commit_ops ops : forall t t' outs pend,
 Proof.
   induction ops as [|o ops IH]; simpl; intros t t' outs pend HK HN HT HR HI HRest.
   - injection HR as <- <-. eauto.
-  - destruct (step o t) as [t1 x] eqn:ES.
-    destruct (run_ops ops t1) as [t2 xs] eqn:ER. injection HR as <- <-.
+  - destruct (step rb o t) as [t1 x] eqn:ES.
+    destruct (run_ops rb ops t1) as [t2 xs] eqn:ER. injection HR as <- <-.
     apply orb_false_iff in HN as [HN1 HN2]. apply andb_true_iff in HT as [HT1 HT2].
-    destruct (commit_idx_step o ops t t1 x pend HK ES HI) as [HI1 HK1].
-    pose proof (commit_rest_step o t t1 x pend HT1 HN1 ES HI HRest) as HR1.
+    destruct (commit_idx_step rb o ops t t1 x pend HK ES HI) as [HI1 HK1].
+    pose proof (commit_rest_step rb o t t1 x pend HT1 HN1 ES HI HRest) as HR1.
     eapply IH; eauto.
 Qed.
 
 (** Index part alone (holds whatever the other components look like). *)
-Lemma commit_ops_idx ops : forall t t' outs pend,
+Lemma commit_ops_idx rb ops : forall t t' outs pend,
   commit_k_idx pend ops = false ->
-  run_ops ops t = (t', outs) ->
+  run_ops rb ops t = (t', outs) ->
   TI_idx (t_disk t) (t_mem t) (t_cbs t) pend ->
   exists pend', TI_idx (t_disk t') (t_mem t') (t_cbs t') pend'.
 Proof.
   induction ops as [|o ops IH]; simpl; intros t t' outs pend HK HR HI.
   - injection HR as <- <-. eauto.
-  - destruct (step o t) as [t1 x] eqn:ES.
-    destruct (run_ops ops t1) as [t2 xs] eqn:ER. injection HR as <- <-.
-    destruct (commit_idx_step o ops t t1 x pend HK ES HI) as [HI1 HK1].
+  - destruct (step rb o t) as [t1 x] eqn:ES.
+    destruct (run_ops rb ops t1) as [t2 xs] eqn:ER. injection HR as <- <-.
+    destruct (commit_idx_step rb o ops t t1 x pend HK ES HI) as [HI1 HK1].
     eapply IH; eauto.
 Qed.
 
@@ -813,9 +940,9 @@ Qed.
 Lemma AI_idx_weaken d0 d m armed : AI_idx d0 d m armed -> AI_idx d0 d m true.
 Proof. intros [A _]. split; [exact A|discriminate]. Qed.
 
-Lemma abort_idx_step d0 o ops t t' r armed :
+Lemma abort_idx_step rb d0 o ops t t' r armed :
   abort_k_idx armed (o :: ops) = false ->
-  step o t = (t', r) ->
+  step rb o t = (t', r) ->
   AI_idx d0 (t_disk t) (t_mem t) armed ->
   AI_idx d0 (t_disk t') (t_mem t') (arm o armed) /\ abort_k_idx (arm o armed) ops = false.
 Proof.
@@ -857,7 +984,9 @@ Proof.
     destruct (n =? 0)%N; [injection HS as <- <-; exact HI1|].
     unfold put_chain in HS.
     destruct (d_accts (t_disk t) !! a) as [r0|] eqn:Er0; injection HS as <- <-; simpl.
-    + destruct HI1 as [A B]. split; [exact A|].
+    + match goal with |- AI_idx _ ?d' _ _ => assert (G : AI_idx d0 d' m1 false) end.
+      2:{ eapply AI_idx_cong; [..|exact G]; try reflexivity. destruct rb; reflexivity. }
+      destruct HI1 as [A B]. split; [exact A|].
       intros Harm a' Ha'. simpl in *. assert (a' <> a) by congruence.
       rewrite lookup_insert_ne by congruence. apply B; auto.
     + eapply AI_idx_cong; [..|exact HI1]; reflexivity.
@@ -887,17 +1016,17 @@ Proof.
     + eapply AI_idx_ext; [exact HI|]. eapply read_ext; exact ER.
 Qed.
 
-Lemma abort_idx_ops d0 ops : forall t t' outs armed,
+Lemma abort_idx_ops rb d0 ops : forall t t' outs armed,
   abort_k_idx armed ops = false ->
-  run_ops ops t = (t', outs) ->
+  run_ops rb ops t = (t', outs) ->
   AI_idx d0 (t_disk t) (t_mem t) armed ->
   coh_idx (t_mem t') d0.
 Proof.
   induction ops as [|o ops IH]; simpl; intros t t' outs armed HK HR HI.
   - injection HR as <- <-. apply HI.
-  - destruct (step o t) as [t1 x] eqn:ES.
-    destruct (run_ops ops t1) as [t2 xs] eqn:ER. injection HR as <- <-.
-    destruct (abort_idx_step d0 o ops t t1 x armed HK ES HI) as [HI1 HK1].
+  - destruct (step rb o t) as [t1 x] eqn:ES.
+    destruct (run_ops rb ops t1) as [t2 xs] eqn:ER. injection HR as <- <-.
+    destruct (abort_idx_step rb d0 o ops t t1 x armed HK ES HI) as [HI1 HK1].
     eapply IH; eauto.
 Qed.
 
@@ -906,25 +1035,25 @@ Qed.
 Definition Inv (s : state) : Prop := coherent (mem_of s) (disk_of s) /\ wf_disk (disk_of s).
 Definition Inv_idx (s : state) : Prop := coh_idx (mem_of s) (disk_of s) /\ wfL (disk_of s).
 
-Lemma run_tx_unfold x s :
-  run_tx x s =
-  let '(t, outs) := run_ops (tx_ops x) {| t_disk := disk_of s; t_mem := mem_of s; t_cbs := [] |} in
+Lemma run_tx_unfold rb x s :
+  run_tx rb x s =
+  let '(t, outs) := run_ops rb (tx_ops x) {| t_disk := disk_of s; t_mem := mem_of s; t_cbs := [] |} in
   let s1 := end_tx (tx_fate x) s t in
   let '(m2, qa) := run_queries (tx_queries x) (disk_of s1) (mem_of s1) in
   ({| disk_of := disk_of s1; mem_of := m2 |}, (outs, qa)).
 Proof. reflexivity. Qed.
 
-Lemma tx_preserves_Inv x s :
-  tx_k x = false -> forallb op_times_ok (tx_ops x) = true -> Inv s -> Inv (run_tx x s).1.
+Lemma tx_preserves_Inv rb x s :
+  tx_k rb x = false -> forallb op_times_ok (tx_ops x) = true -> Inv s -> Inv (run_tx rb x s).1.
 Proof.
   intros HK HT [HC [HL HA]]. rewrite run_tx_unfold.
-  destruct (run_ops (tx_ops x) _) as [t outs] eqn:ER.
+  destruct (run_ops rb (tx_ops x) _) as [t outs] eqn:ER.
   cbv zeta. set (s1 := end_tx (tx_fate x) s t).
   assert (HI1 : Inv s1).
   { subst s1. unfold tx_k in HK. destruct (tx_fate x) eqn:EF; simpl.
     - apply orb_false_iff in HK as [HK1 HK2].
       destruct HC as (C1 & C2 & C3 & C4 & C5).
-      destruct (commit_ops (tx_ops x) _ t outs [] HK1 HK2 HT ER) as (pend' & HI' & HR').
+      destruct (commit_ops rb (tx_ops x) _ t outs [] HK1 HK2 HT ER) as (pend' & HI' & HR').
       + simpl. apply TI_idx_init; assumption.
       + simpl. repeat split; auto; apply C4.
       + apply TI_idx_settle in HI'. apply TI_rest_settle in HR'.
@@ -932,59 +1061,59 @@ Proof.
         split; [|split; [apply HI'|exact R4]].
         split; [eapply TI_idx_nil; exact HI'|]. auto.
     - split; [|split; assumption].
-      eapply (abort_k_ops (disk_of s)); [exact HK|exact ER|]. simpl. split; [exact HC|]. auto.
+      eapply (abort_k_ops rb (disk_of s)); [exact HK|exact ER|]. simpl. split; [exact HC|]. auto.
     - split; [|split; assumption].
-      eapply (abort_k_ops (disk_of s)); [exact HK|exact ER|]. simpl. split; [exact HC|]. auto.
+      eapply (abort_k_ops rb (disk_of s)); [exact HK|exact ER|]. simpl. split; [exact HC|]. auto.
     - split; [|split; assumption].
-      eapply (abort_k_ops (disk_of s)); [exact HK|exact ER|]. simpl. split; [exact HC|]. auto. }
+      eapply (abort_k_ops rb (disk_of s)); [exact HK|exact ER|]. simpl. split; [exact HC|]. auto. }
   destruct (run_queries (tx_queries x) (disk_of s1) (mem_of s1)) as [m2 qa] eqn:EQ. simpl.
   destruct HI1 as [HC1 HW1]. split; [|exact HW1].
   eapply coherent_ext; [exact HC1|]. eapply run_queries_ext; exact EQ.
 Qed.
 
-Lemma tx_preserves_Inv_idx x s :
-  tx_k_idx x = false -> Inv_idx s -> Inv_idx (run_tx x s).1.
+Lemma tx_preserves_Inv_idx rb x s :
+  tx_k_idx x = false -> Inv_idx s -> Inv_idx (run_tx rb x s).1.
 Proof.
   intros HK [HC HL]. rewrite run_tx_unfold.
-  destruct (run_ops (tx_ops x) _) as [t outs] eqn:ER.
+  destruct (run_ops rb (tx_ops x) _) as [t outs] eqn:ER.
   cbv zeta. set (s1 := end_tx (tx_fate x) s t).
   assert (HI1 : Inv_idx s1).
   { subst s1. unfold tx_k_idx in HK. destruct (tx_fate x) eqn:EF; simpl.
-    - destruct (commit_ops_idx (tx_ops x) _ t outs [] HK ER) as (pend' & HI').
+    - destruct (commit_ops_idx rb (tx_ops x) _ t outs [] HK ER) as (pend' & HI').
       + simpl. apply TI_idx_init; assumption.
       + apply TI_idx_settle in HI'. split; [eapply TI_idx_nil; exact HI'|apply HI'].
-    - split; [|exact HL]. eapply (abort_idx_ops (disk_of s)); [exact HK|exact ER|].
+    - split; [|exact HL]. eapply (abort_idx_ops rb (disk_of s)); [exact HK|exact ER|].
       simpl. split; [exact HC|auto].
-    - split; [|exact HL]. eapply (abort_idx_ops (disk_of s)); [exact HK|exact ER|].
+    - split; [|exact HL]. eapply (abort_idx_ops rb (disk_of s)); [exact HK|exact ER|].
       simpl. split; [exact HC|auto].
-    - split; [|exact HL]. eapply (abort_idx_ops (disk_of s)); [exact HK|exact ER|].
+    - split; [|exact HL]. eapply (abort_idx_ops rb (disk_of s)); [exact HK|exact ER|].
       simpl. split; [exact HC|auto]. }
   destruct (run_queries (tx_queries x) (disk_of s1) (mem_of s1)) as [m2 qa] eqn:EQ. simpl.
   destruct HI1 as [HC1 HW1]. split; [|exact HW1].
   eapply coh_idx_ext; [exact HC1|eapply run_queries_ext; exact EQ|reflexivity].
 Qed.
 
-Lemma final_cons x h s : final (x :: h) s = final h (run_tx x s).1.
+Lemma final_cons rb x h s : final rb (x :: h) s = final rb h (run_tx rb x s).1.
 Proof.
-  unfold final. simpl. destruct (run_tx x s) as [s1 o]. simpl. destruct (run_hist h s1). reflexivity.
+  unfold final. simpl. destruct (run_tx rb x s) as [s1 o]. simpl. destruct (run_hist rb h s1). reflexivity.
 Qed.
 
-Lemma final_app h1 : forall h2 s, final (h1 ++ h2) s = final h2 (final h1 s).
+Lemma final_app rb h1 : forall h2 s, final rb (h1 ++ h2) s = final rb h2 (final rb h1 s).
 Proof.
   induction h1 as [|x h1 IH]; intros h2 s; [reflexivity|].
   simpl. rewrite !final_cons. apply IH.
 Qed.
 
-Lemma hist_preserves_Inv h : forall s,
-  in_K h = false -> times_ok h = true -> Inv s -> Inv (final h s).
+Lemma hist_preserves_Inv rb h : forall s,
+  in_K rb h = false -> times_ok h = true -> Inv s -> Inv (final rb h s).
 Proof.
   induction h as [|x h IH]; intros s HK HT HI; [exact HI|].
   simpl in HK, HT. apply orb_false_iff in HK as [HK1 HK2]. apply andb_true_iff in HT as [HT1 HT2].
   rewrite final_cons. apply IH; auto. apply tx_preserves_Inv; auto.
 Qed.
 
-Lemma hist_preserves_Inv_idx h : forall s,
-  in_K_idx h = false -> Inv_idx s -> Inv_idx (final h s).
+Lemma hist_preserves_Inv_idx rb h : forall s,
+  in_K_idx h = false -> Inv_idx s -> Inv_idx (final rb h s).
 Proof.
   induction h as [|x h IH]; intros s HK HI; [exact HI|].
   simpl in HK. apply orb_false_iff in HK as [HK1 HK2].
@@ -998,26 +1127,26 @@ Lemma Inv_idx_opened d : wfL d -> Inv_idx (opened d).
 Proof. intros H. split; [apply coherent_reopen|exact H]. Qed.
 
 (** The statement of C08 outside K. *)
-Lemma memory_equals_restart d0 h :
-  wf_disk d0 -> times_ok h = true -> in_K h = false ->
-  forall q, observe (mem_of (final h (opened d0))) (disk_of (final h (opened d0))) q
-          = observe (reopen (disk_of (final h (opened d0)))) (disk_of (final h (opened d0))) q.
+Lemma memory_equals_restart rb d0 h :
+  wf_disk d0 -> times_ok h = true -> in_K rb h = false ->
+  forall q, observe (mem_of (final rb h (opened d0))) (disk_of (final rb h (opened d0))) q
+          = observe (reopen (disk_of (final rb h (opened d0)))) (disk_of (final rb h (opened d0))) q.
 Proof.
   intros HW HT HK q.
-  destruct (hist_preserves_Inv h (opened d0) HK HT (Inv_opened d0 HW)) as [HC [_ HA]].
+  destruct (hist_preserves_Inv rb h (opened d0) HK HT (Inv_opened d0 HW)) as [HC [_ HA]].
   apply observe_coherent; assumption.
 Qed.
 
-Lemma in_K_app h1 h2 : in_K (h1 ++ h2) = in_K h1 || in_K h2.
+Lemma in_K_app rb h1 h2 : in_K rb (h1 ++ h2) = in_K rb h1 || in_K rb h2.
 Proof. unfold in_K. apply existsb_app. Qed.
 Lemma times_ok_app h1 h2 : times_ok (h1 ++ h2) = times_ok h1 && times_ok h2.
 Proof. unfold times_ok. apply forallb_app. Qed.
 
 (** ... at every transaction boundary of the history. *)
-Lemma memory_equals_restart_everywhere d0 h1 h2 :
-  wf_disk d0 -> times_ok (h1 ++ h2) = true -> in_K (h1 ++ h2) = false ->
-  forall q, observe (mem_of (final h1 (opened d0))) (disk_of (final h1 (opened d0))) q
-          = observe (reopen (disk_of (final h1 (opened d0)))) (disk_of (final h1 (opened d0))) q.
+Lemma memory_equals_restart_everywhere rb d0 h1 h2 :
+  wf_disk d0 -> times_ok (h1 ++ h2) = true -> in_K rb (h1 ++ h2) = false ->
+  forall q, observe (mem_of (final rb h1 (opened d0))) (disk_of (final rb h1 (opened d0))) q
+          = observe (reopen (disk_of (final rb h1 (opened d0)))) (disk_of (final rb h1 (opened d0))) q.
 Proof.
   intros HW HT HK. rewrite times_ok_app in HT. rewrite in_K_app in HK.
   apply andb_true_iff in HT as [HT _]. apply orb_false_iff in HK as [HK _].
@@ -1029,12 +1158,12 @@ Qed.
 Definition issue_tx (a : N) (b : bool) (n : N) : txn :=
   {| tx_ops := [ONext a b n]; tx_fate := Commit; tx_queries := [] |}.
 
-Lemma issue_same d m a b n :
+Lemma issue_same rb d m a b n :
   coh_idx m d ->
-  (run_tx (issue_tx a b n) {| disk_of := d; mem_of := m |}).2.1
-    = (run_tx (issue_tx a b n) (opened d)).2.1 /\
-  disk_of (run_tx (issue_tx a b n) {| disk_of := d; mem_of := m |}).1
-    = disk_of (run_tx (issue_tx a b n) (opened d)).1.
+  (run_tx rb (issue_tx a b n) {| disk_of := d; mem_of := m |}).2.1
+    = (run_tx rb (issue_tx a b n) (opened d)).2.1 /\
+  disk_of (run_tx rb (issue_tx a b n) {| disk_of := d; mem_of := m |}).1
+    = disk_of (run_tx rb (issue_tx a b n) (opened d)).1.
 Proof.
   intros HC. unfold run_tx, issue_tx, opened. simpl.
   pose proof (load_acct_spec d m a) as S1. pose proof (load_acct_spec d (reopen d) a) as S2.
@@ -1052,21 +1181,21 @@ Proof.
     unfold put_chain. simpl. rewrite E2. simpl. auto.
 Qed.
 
-Lemma next_issue_equals_restart d0 h a b n :
+Lemma next_issue_equals_restart rb d0 h a b n :
   wfL d0 -> in_K_idx h = false ->
-  let s := final h (opened d0) in
-  (run_tx (issue_tx a b n) s).2.1 = (run_tx (issue_tx a b n) (opened (disk_of s))).2.1 /\
-  disk_of (run_tx (issue_tx a b n) s).1 = disk_of (run_tx (issue_tx a b n) (opened (disk_of s))).1.
+  let s := final rb h (opened d0) in
+  (run_tx rb (issue_tx a b n) s).2.1 = (run_tx rb (issue_tx a b n) (opened (disk_of s))).2.1 /\
+  disk_of (run_tx rb (issue_tx a b n) s).1 = disk_of (run_tx rb (issue_tx a b n) (opened (disk_of s))).1.
 Proof.
   intros HW HK s.
-  destruct (hist_preserves_Inv_idx h (opened d0) HK (Inv_idx_opened d0 HW)) as [HC _].
+  destruct (hist_preserves_Inv_idx rb h (opened d0) HK (Inv_idx_opened d0 HW)) as [HC _].
   fold s in HC. destruct s as [d m]. apply issue_same. exact HC.
 Qed.
 
 (** Index-related queries agree outside [in_K_idx] (whatever else diverged). *)
-Lemma index_queries_equal_restart d0 h a :
+Lemma index_queries_equal_restart rb d0 h a :
   wfL d0 -> in_K_idx h = false ->
-  let s := final h (opened d0) in
+  let s := final rb h (opened d0) in
   (forall b, observe (mem_of s) (disk_of s) (QLast a b) = observe (reopen (disk_of s)) (disk_of s) (QLast a b)) /\
   match observe (mem_of s) (disk_of s) (QProps a), observe (reopen (disk_of s)) (disk_of s) (QProps a) with
   | AProps _ e i _, AProps _ e' i' _ => e = e' /\ i = i'
@@ -1075,7 +1204,7 @@ Lemma index_queries_equal_restart d0 h a :
   end.
 Proof.
   intros HW HK s.
-  destruct (hist_preserves_Inv_idx h (opened d0) HK (Inv_idx_opened d0 HW)) as [HC _].
+  destruct (hist_preserves_Inv_idx rb h (opened d0) HK (Inv_idx_opened d0 HW)) as [HC _].
   fold s in HC. destruct s as [d m]. simpl in *. unfold observe. simpl. split.
   - intros b. unfold load_acct; simpl. rewrite lookup_empty.
     destruct (m_accts m !! a) as [ai|] eqn:E.
@@ -1121,8 +1250,8 @@ Lemma J_cong d0 m0 d m d' m' :
   d_accts d' = d_accts d -> m_accts m' = m_accts m -> J d0 m0 d m -> J d0 m0 d' m'.
 Proof. intros E1 E2 H. unfold J in *. rewrite E1, E2. exact H. Qed.
 
-Lemma issue_step_J d0 m0 o t t' r :
-  issue_or_read o = true -> step o t = (t', r) ->
+Lemma issue_step_J rb d0 m0 o t t' r :
+  issue_or_read o = true -> step rb o t = (t', r) ->
   J d0 m0 (t_disk t) (t_mem t) -> J d0 m0 (t_disk t') (t_mem t').
 Proof.
   intros HO HS HJ. destruct o as [| |a b n| | | | | | | |q]; try discriminate.
@@ -1135,7 +1264,9 @@ Proof.
     destruct (n =? 0)%N; [injection HS as <- <-; exact HJ1|].
     unfold put_chain in HS.
     destruct (d_accts (t_disk t) !! a) as [r0|] eqn:Er0; injection HS as <- <-; simpl.
-    + destruct HJ1 as (A0 & A & B). split; [exact A0|split; [exact A|]].
+    + match goal with |- J _ _ ?d' _ => assert (G : J d0 m0 d' m1) end.
+      2:{ eapply J_cong; [..|exact G]; try reflexivity. destruct rb; reflexivity. }
+      destruct HJ1 as (A0 & A & B). split; [exact A0|split; [exact A|]].
       intros a' Ha'. simpl in *. assert (a' <> a) by congruence.
       rewrite lookup_insert_ne by congruence. apply B; auto.
     + eapply J_cong; [..|exact HJ1]; reflexivity.
@@ -1143,21 +1274,21 @@ Proof.
     eapply J_ext; [exact HJ|]. eapply read_ext; exact ER.
 Qed.
 
-Lemma issue_ops_J d0 m0 ops : forall t t' outs,
-  forallb issue_or_read ops = true -> run_ops ops t = (t', outs) ->
+Lemma issue_ops_J rb d0 m0 ops : forall t t' outs,
+  forallb issue_or_read ops = true -> run_ops rb ops t = (t', outs) ->
   J d0 m0 (t_disk t) (t_mem t) -> J d0 m0 (t_disk t') (t_mem t').
 Proof.
   induction ops as [|o ops IH]; simpl; intros t t' outs HO HR HJ.
   - injection HR as <- <-. exact HJ.
-  - destruct (step o t) as [t1 x] eqn:ES.
-    destruct (run_ops ops t1) as [t2 xs] eqn:ER. injection HR as <- <-.
+  - destruct (step rb o t) as [t1 x] eqn:ES.
+    destruct (run_ops rb ops t1) as [t2 xs] eqn:ER. injection HR as <- <-.
     apply andb_true_iff in HO as [HO1 HO2].
     eapply IH; eauto. eapply issue_step_J; eauto.
 Qed.
 
-Lemma rolled_back_issuance_keeps_indices s ops f qs :
+Lemma rolled_back_issuance_keeps_indices rb s ops f qs :
   f <> Commit -> forallb issue_or_read ops = true ->
-  let s' := (run_tx {| tx_ops := ops; tx_fate := f; tx_queries := qs |} s).1 in
+  let s' := (run_tx rb {| tx_ops := ops; tx_fate := f; tx_queries := qs |} s).1 in
   disk_of s' = disk_of s /\
   forall a ai, m_accts (mem_of s') !! a = Some ai ->
     m_accts (mem_of s) !! a = Some ai \/
@@ -1165,10 +1296,10 @@ Lemma rolled_back_issuance_keeps_indices s ops f qs :
      exists r, d_accts (disk_of s) !! a = Some r /\ ai = info_of_row r).
 Proof.
   intros Hf HO. rewrite run_tx_unfold. simpl.
-  destruct (run_ops ops _) as [t outs] eqn:ER.
+  destruct (run_ops rb ops _) as [t outs] eqn:ER.
   assert (HJ0 : J (disk_of s) (mem_of s) (disk_of s) (mem_of s)).
   { split; [auto|split; [auto|auto]]. }
-  pose proof (issue_ops_J (disk_of s) (mem_of s) ops _ t outs HO ER HJ0) as HJ1.
+  pose proof (issue_ops_J rb (disk_of s) (mem_of s) ops _ t outs HO ER HJ0) as HJ1.
   assert (HE : end_tx f s t = {| disk_of := disk_of s; mem_of := t_mem t |}) by (destruct f; [contradiction|reflexivity..]).
   rewrite HE. simpl.
   destruct (run_queries qs (disk_of s) (t_mem t)) as [m2 qa] eqn:EQ. simpl.
@@ -1181,14 +1312,23 @@ Qed.
 
 (** ** K_idx is part of K *)
 
-Lemma abort_k_idx_sub ops : forall armed, abort_k_idx armed ops = true -> abort_k armed ops = true.
+Lemma abort_k_idx_sub rb ops : forall armed issued,
+  abort_k_idx armed ops = true -> abort_k rb armed issued ops = true.
 Proof.
-  induction ops as [|o ops IH]; intros armed H; [discriminate|].
-  destruct o; simpl in *; auto;
-    try (apply orb_true_iff in H as [H|H]; apply orb_true_iff; auto).
+  induction ops as [|o ops IH]; intros armed issued H; [discriminate|].
+  destruct o as [nm|a nm|a b n|a b last|x|s| |tm|s v|x bs|q]; simpl in *; auto.
+  - apply orb_true_iff in H as [H|H]; [subst; apply orb_true_iff; left; apply orb_true_r|].
+    apply orb_true_iff. right. auto.
+  - apply orb_true_iff in H as [H|H]; apply orb_true_iff; auto.
+  - apply orb_true_iff in H as [H|H]; apply orb_true_iff; auto.
+  - destruct q; simpl in *;
+      try (apply orb_true_iff in H as [H|H]; apply orb_true_iff; auto; fail).
+    apply orb_true_iff in H as [H|H].
+    + rewrite andb_true_r in H. subst. apply orb_true_iff. left. apply orb_true_r.
+    + apply orb_true_iff. right. auto.
 Qed.
 
-Lemma tx_k_idx_sub x : tx_k_idx x = true -> tx_k x = true.
+Lemma tx_k_idx_sub rb x : tx_k_idx x = true -> tx_k rb x = true.
 Proof.
   unfold tx_k_idx, tx_k. destruct (tx_fate x); intros H.
   - rewrite H. reflexivity.
@@ -1197,7 +1337,7 @@ Proof.
   - apply abort_k_idx_sub; exact H.
 Qed.
 
-Lemma in_K_idx_sub h : in_K_idx h = true -> in_K h = true.
+Lemma in_K_idx_sub rb h : in_K_idx h = true -> in_K rb h = true.
 Proof.
   unfold in_K_idx, in_K. rewrite !existsb_exists. intros (x & Hx & Hk). exists x. split; [exact Hx|].
   apply tx_k_idx_sub; exact Hk.
@@ -1216,60 +1356,69 @@ Qed.
 
 Definition d_wit : disk := created 0 1231006505 1599827200.
 Definition tx (ops : list op) (f : fate) : txn := {| tx_ops := ops; tx_fate := f; tx_queries := [] |}.
-Definition diverges (h : list txn) (q : query) : bool :=
-  let s := final h (opened d_wit) in
+Definition diverges (rb : bool) (h : list txn) (q : query) : bool :=
+  let s := final rb h (opened d_wit) in
   negb (bool_decide (observe (mem_of s) (disk_of s) q = observe (reopen (disk_of s)) (disk_of s) q)).
-Definition issue_differs (h : list txn) (a : N) (b : bool) (n : N) : bool :=
-  let s := final h (opened d_wit) in
-  negb (bool_decide ((run_tx (issue_tx a b n) s).2.1 = (run_tx (issue_tx a b n) (opened (disk_of s))).2.1)).
+Definition issue_differs (rb : bool) (h : list txn) (a : N) (b : bool) (n : N) : bool :=
+  let s := final rb h (opened d_wit) in
+  negb (bool_decide ((run_tx rb (issue_tx a b n) s).2.1
+                     = (run_tx rb (issue_tx a b n) (opened (disk_of s))).2.1)).
 
 Definition stamp1 : stamp := {| s_height := 1; s_hash := 5; s_time := 1600000600 |}.
 Definition w_rename := [tx [ORead (QProps 0)] Commit; tx [ORename 0 7] AbortCaller].
 Definition w_synced := [tx [OSetSynced stamp1] CommitFails].
 Definition w_extend := [tx [OExtend 0 false 4] AbortDryRun].
 Definition w_phantom := [tx [ONext 0 true 1] AbortDryRun].
+Definition w_issue_lookup := [tx [ONext 0 true 1; ORead (QLookup (Chain 0 true 0))] AbortDryRun].
 Definition w_birthday := [tx [OSetBirthday 1500003600] AbortCaller].
 Definition w_import := [tx [OImport (ImpKey 0) None] CommitFails].
 Definition w_newacct_read := [tx [ONewAccount 5; ORead (QProps 1)] AbortCaller].
 Definition w_stale_callback := [tx [ONext 0 false 1; OExtend 0 false 4] Commit].
 Definition w_synced_nil := [tx [OSetSyncedNil] Commit].
 
-Lemma witnesses_in_K :
-  forallb (fun h => in_K h && times_ok h)
-    [w_rename; w_synced; w_extend; w_phantom; w_birthday; w_import; w_newacct_read;
+Lemma witnesses_in_K rb :
+  forallb (fun h => in_K rb h && times_ok h)
+    [w_rename; w_synced; w_extend; w_issue_lookup; w_birthday; w_import; w_newacct_read;
      w_stale_callback; w_synced_nil] = true.
-Proof. vm_compute. reflexivity. Qed.
+Proof. destruct rb; vm_compute; reflexivity. Qed.
 
-Lemma witnesses_diverge :
-  diverges w_rename (QProps 0) = true /\
-  diverges w_synced QSynced = true /\
-  diverges w_extend (QProps 0) = true /\
-  diverges w_extend (QLast 0 false) = true /\
-  diverges w_phantom (QLookup (Chain 0 true 0)) = true /\
-  diverges w_birthday QBirthday = true /\
-  diverges w_import (QLookup (ImpKey 0)) = true /\
-  diverges w_newacct_read (QProps 1) = true /\
-  diverges w_stale_callback (QProps 0) = true /\
-  diverges w_synced_nil QSynced = true.
-Proof. vm_compute. repeat split. Qed.
+Lemma witnesses_diverge rb :
+  diverges rb w_rename (QProps 0) = true /\
+  diverges rb w_synced QSynced = true /\
+  diverges rb w_extend (QProps 0) = true /\
+  diverges rb w_extend (QLast 0 false) = true /\
+  diverges rb w_issue_lookup (QLookup (Chain 0 true 0)) = true /\
+  diverges rb w_birthday QBirthday = true /\
+  diverges rb w_import (QLookup (ImpKey 0)) = true /\
+  diverges rb w_newacct_read (QProps 1) = true /\
+  diverges rb w_stale_callback (QProps 0) = true /\
+  diverges rb w_synced_nil QSynced = true.
+Proof. destruct rb; vm_compute; repeat split. Qed.
 
-Lemma witnesses_issue_differs :
-  in_K_idx w_extend = true /\ issue_differs w_extend 0 false 1 = true /\
-  in_K_idx w_stale_callback = true /\ issue_differs w_stale_callback 0 false 1 = true.
-Proof. vm_compute. repeat split. Qed.
+(** The plain dry-run issuance: inside K, and diverging, exactly when the
+    read-back is cached before commit. *)
+Lemma dry_run_issuance_phantom rb :
+  in_K rb w_phantom = rb /\ times_ok w_phantom = true /\ in_K_idx w_phantom = false /\
+  diverges rb w_phantom (QLookup (Chain 0 true 0)) = rb.
+Proof. destruct rb; vm_compute; repeat split. Qed.
 
-Lemma diverges_spec h q :
-  diverges h q = true ->
-  let s := final h (opened d_wit) in
+Lemma witnesses_issue_differs rb :
+  in_K_idx w_extend = true /\ issue_differs rb w_extend 0 false 1 = true /\
+  in_K_idx w_stale_callback = true /\ issue_differs rb w_stale_callback 0 false 1 = true.
+Proof. destruct rb; vm_compute; repeat split. Qed.
+
+Lemma diverges_spec rb h q :
+  diverges rb h q = true ->
+  let s := final rb h (opened d_wit) in
   observe (mem_of s) (disk_of s) q <> observe (reopen (disk_of s)) (disk_of s) q.
 Proof.
   unfold diverges. cbv zeta. intros H. apply negb_true_iff, bool_decide_eq_false in H. exact H.
 Qed.
 
-Lemma issue_differs_spec h a b n :
-  issue_differs h a b n = true ->
-  let s := final h (opened d_wit) in
-  (run_tx (issue_tx a b n) s).2.1 <> (run_tx (issue_tx a b n) (opened (disk_of s))).2.1.
+Lemma issue_differs_spec rb h a b n :
+  issue_differs rb h a b n = true ->
+  let s := final rb h (opened d_wit) in
+  (run_tx rb (issue_tx a b n) s).2.1 <> (run_tx rb (issue_tx a b n) (opened (disk_of s))).2.1.
 Proof.
   unfold issue_differs. cbv zeta. intros H. apply negb_true_iff, bool_decide_eq_false in H. exact H.
 Qed.
